@@ -112,7 +112,7 @@ def concretize(m):
                     out[name] = ('bytes', b.hex())
             elif srt == sym.VAL:
                 out[name] = val_to_py(m, v)
-            elif z3.is_array_sort(srt) and srt.domain() == sym.I and srt.range() == sym.BYTES:
+            elif isinstance(srt, z3.ArraySortRef) and srt.domain() == sym.I and srt.range() == sym.BYTES:
                 # list / stack contents: evaluated up to the matching length constant if any
                 ln_name = name[:-4] + '_len' if name.endswith('_arr') else None
                 n = None
@@ -125,7 +125,7 @@ def concretize(m):
                         b = seq_to_bytes(m.eval(z3.Select(z3.Const(name, srt), i), True))
                         items.append((b or b'').hex())
                     out[name] = ('items', items, n)
-            elif z3.is_array_sort(srt) and srt.range() == sym.VAL:
+            elif isinstance(srt, z3.ArraySortRef) and srt.range() == sym.VAL:
                 ent = []
                 c = z3.Const(name, srt)
                 keys = list(store_keys(v))
